@@ -36,6 +36,9 @@ def limit_forms():
     forms.append([P("u", "fn", b"0123456789")])
     forms.append([P("f", None, "ééé".encode()), P("g", None, b"tail"), P("u", "fn", b"last is a file")])
     forms.append([P("u", "fn", b"first is a file"), P("f", None, "中中".encode()), P("v", "fn2", b"")])
+    # an upload control whose file name is empty is still an upload: its bytes go to the file sink, not to the field budget
+    forms.append([P("u", "", b"UPLOAD WITH AN EMPTY FILE NAME")])
+    forms.append([P("f", None, b"ab"), P("u", "", b"0123456789"), P("g", None, b"cd"), P("v", "", b"")])
     return forms
 
 
@@ -44,6 +47,11 @@ def limit_chunkings(body):
     yield [body[i:i + 1] for i in range(len(body))]
     for a in range(1, len(body)):
         yield [body[:a], body[a:]]
+    # a zero-length chunk in the middle of the stream is not the end of the stream
+    for a in range(0, len(body) + 1, max(1, len(body) // 24)):
+        yield [body[:a], b"", body[a:]]
+    yield [b""] + [body[i:i + 7] for i in range(0, len(body), 7)] + [b""]
+    yield [x for i in range(0, len(body), 5) for x in (body[i:i + 5], b"")]
 
 
 def shards(tier, seed):
@@ -51,7 +59,7 @@ def shards(tier, seed):
     n = len(MP.corpus_bfs(tier))
     per = 4 if tier == "quick" else 6
     out += [("buffer", i, min(i + per, n)) for i in range(0, n, per)]
-    out += [("helperbuf", k) for k in range(6)]
+    out += [("helperbuf", k) for k in range(6 + len(LOOKALIKE))]
     out.append(("scaled",))
     out.append(("defaults",))
     return out
@@ -151,6 +159,11 @@ class Watch:
             yield c
 
 
+# content in which the delimiter's text occurs where it cannot be a delimiter (middle of a line, or followed by more text),
+# followed by many ordinary lines: everything up to the last line break can be passed on, nothing may pile up
+LOOKALIKE = [b"x--bound y\r\n", b"abc --bound\r\n", b"\r\n--boundX\r\n", b"--bound\r\n", b"x\r--bound-\r\n"]
+
+
 def run_helperbuf(r, k):
     from baize.multipart_helper import parse_stream, parse_async_stream
     from baize.exceptions import HTTPException
@@ -158,10 +171,12 @@ def run_helperbuf(r, k):
 
     boundary = b"bound"
     # the last two: the bare boundary token (without the leading dashes) inside the content, after a line break
-    lead = [b"\r", b"\n", b"\r\r\n", b"x\n", b"\r\nboundary=bound ", b"\nbound\tbound-"][k]
+    leads = [b"\r", b"\n", b"\r\r\n", b"x\n", b"\r\nboundary=bound ", b"\nbound\tbound-"]
+    lead = (leads + LOOKALIKE)[k]
     run = 600
+    filler = b"q" * run if k < len(leads) else (b"q" * 48 + b"\r\n") * 12
     for as_file in (True, False):
-        content = lead + b"q" * run
+        content = lead + filler
         parts = [MP.part("u", "fn" if as_file else None, content)]
         body = MR.encode(parts, boundary)
         for size in range(1, 65):
